@@ -289,6 +289,10 @@ def check(s):
                  detail=show(r_[1][2], maxlen=160))
             s.ob("C08.10", f"{ci_.name}.evaluate_action", summed(r_[1][3], "entropy"), "the entropy is summed over the action components (one number per sample, like log_prob)", loce,
                  key="entropy-summed", detail=show(r_[1][3], maxlen=160), necessary_for="the weighted negative entropy term is the entropy of the action distribution, for every action space kind")
+    # C08.11 "on data collected by the current policy every ratio is 1": the log-probability the losses recompute (evaluate_action) and the
+    # one stored while collecting (action_and_value) come from identical sub-graphs, mask included
+    from .C04 import check_policy_siblings
+    check_policy_siblings(s, "C08.11")
     # C08.9 configuration wiring of the learners: each coefficient / flag given to the constructor is the like-named attribute the loss reads
     from .util import ctor_wiring
     for cls in ("PPO", "A2C", "REINFORCE"):
